@@ -15,6 +15,11 @@ def main():
     if sh("git -C /repo status --porcelain --untracked-files=no").stdout.strip():
         print("refusing: /repo has uncommitted changes"); return 2
     results = []
+    selected = [m for m in mutants if not args or any(a in m["name"] for a in args)]
+    for prop in sorted(set(p for m in selected for p in m["props"])):
+        r = sh("%s/vcheck %s quick" % (HERE, prop), cwd=HERE)
+        if r.returncode != 0:
+            print("refusing: %s is not green on the unchanged tree (rc=%d), 'caught' would mean nothing" % (prop, r.returncode)); return 2
     for m in mutants:
         if args and not any(a in m["name"] for a in args):
             continue
